@@ -175,6 +175,148 @@ def regex_nullable(r):
     return False
 
 
+# ---- does a regex have a word that is a proper prefix of another word?  (its end is then found by lookahead at a state
+# that is already finishing; nmfu runs non-strict actions that follow such a match on *every* finishing transition - the
+# documented deviation OP8 - so generated programs keep actions away from that position)
+_CC = {'d': set(range(48, 58)), 'w': set(range(48, 58)) | set(range(65, 91)) | set(range(97, 123)) | {95}, 's': {32, 9, 10, 13, 11, 12},
+       'n': {10}, 't': {9}, 'r': {13}, ' ': {32}}
+
+
+def _atom_set(r):
+    k = r['k']
+    if k == 'ch':
+        return {r['c']}
+    if k == 'any':
+        return set(range(256))
+    if k == 'cc':
+        n = r['n']
+        return _CC[n] if n in _CC else set(range(256)) - _CC[n.lower()]
+    if k == 'set':
+        s = set()
+        for it in r['items']:
+            if it[0] == 'ch':
+                s.add(it[1])
+            elif it[0] == 'range':
+                s.update(range(it[1], it[2] + 1))
+            else:
+                s |= _atom_set({'k': 'cc', 'n': it[1]})
+        return set(range(256)) - s if r['inv'] else s
+    return None
+
+
+def _desugar(r):
+    k = r['k']
+    if k in ('ch', 'any', 'cc', 'set'):
+        return ('a', frozenset(_atom_set(r)))
+    if k == 'seq':
+        out = ('e',)
+        for x in reversed(r['c']):
+            out = ('s', _desugar(x), out)
+        return out
+    if k == 'alt':
+        out = None
+        for x in r['c']:
+            d = _desugar(x)
+            out = d if out is None else ('o', out, d)
+        return out
+    c = _desugar(r['c'])
+    if k == 'star':
+        return ('*', c)
+    if k == 'plus':
+        return ('s', c, ('*', c))
+    if k == 'opt':
+        return ('o', c, ('e',))
+    n = r['n']
+    rep = ('e',)
+    for _ in range(n):
+        rep = ('s', c, rep)
+    if k == 'rep':
+        return rep
+    if k == 'atleast':
+        return ('s', rep, ('*', c))
+    tail = ('e',)
+    for _ in range(r['m'] - n):
+        tail = ('o', ('s', c, tail), ('e',))
+    return ('s', rep, tail)
+
+
+def _null(t):
+    return t[0] in ('e', '*') or (t[0] == 's' and _null(t[1]) and _null(t[2])) or (t[0] == 'o' and (_null(t[1]) or _null(t[2])))
+
+
+def _pd(t, b):
+    k = t[0]
+    if k == 'e':
+        return set()
+    if k == 'a':
+        return {('e',)} if b in t[1] else set()
+    if k == 'o':
+        return _pd(t[1], b) | _pd(t[2], b)
+    if k == '*':
+        return {('s', x, t) if x != ('e',) else t for x in _pd(t[1], b)}
+    out = {('s', x, t[2]) if x != ('e',) else t[2] for x in _pd(t[1], b)}
+    if _null(t[1]):
+        out |= _pd(t[2], b)
+    return out
+
+
+def regex_open_ended(r, limit=300):
+    t = _desugar(r)
+    import itertools
+    probe = set()
+    def atoms(x):
+        if x[0] == 'a':
+            probe.update(itertools.islice(sorted(x[1]), 3))
+            rest = set(range(256)) - x[1]
+            if rest:
+                probe.add(min(rest))
+        for y in x[1:]:
+            if isinstance(y, tuple):
+                atoms(y)
+    atoms(t)
+    start = frozenset([t])
+    seen, todo = {start}, [start]
+    while todo and len(seen) < limit:
+        S = todo.pop()
+        fin = any(_null(x) for x in S)
+        for b in probe:
+            D = frozenset(y for x in S for y in _pd(x, b))
+            if not D:
+                continue
+            if fin:
+                return True
+            if D not in seen:
+                seen.add(D)
+                todo.append(D)
+    return False
+
+
+def _is_action_stmt(s):
+    return s['t'] in ('set', 'setstr', 'appendc', 'delete', 'hook', 'finish', 'yield', 'break') or (s['t'] == 'if' and all(_is_action_stmt(x) for b in s['br'] for x in b['b']) and all(_is_action_stmt(x) for x in (s.get('els') or [])))
+
+
+def avoid_op8(stmts, sep=(0x7e,)):
+    """insert a literal between a match whose regex is open-ended and an action that directly follows it (recursively)"""
+    out = []
+    for i, s in enumerate(stmts):
+        for key in ('b', 'h', 'els'):
+            if isinstance(s.get(key), list) and s['t'] != 'if':
+                s[key] = avoid_op8(s[key], sep)
+        if s['t'] == 'if':
+            for b in s['br']:
+                b['b'] = avoid_op8(b['b'], sep)
+            if s.get('els'):
+                s['els'] = avoid_op8(s['els'], sep)
+        if s['t'] == 'case':
+            for cl in s['cl']:
+                cl['b'] = avoid_op8(cl['b'], sep)
+        out.append(s)
+        m = s.get('m') if s['t'] in ('match', 'append') else None
+        if m and m.get('k') == 're' and i + 1 < len(stmts) and _is_action_stmt(stmts[i + 1]) and regex_open_ended(m['r']):
+            out.append({'t': 'match', 'm': {'k': 'str', 'bytes': list(sep)}})
+    return out
+
+
 # C-like precedence levels of the nmfu grammar (higher binds tighter)
 PREC = {'||': 1, '&&': 2, '|': 3, '^': 4, '&': 5, '==': 6, '!=': 6, '<': 6, '>': 6, '<=': 6, '>=': 6,
         '<<': 7, '>>': 7, '+': 8, '-': 8, '*': 9, '/': 9, '%': 9}
@@ -808,7 +950,7 @@ class Gen:
 
     def program(self, args=()):
         self.decls()
-        body = self.block(0, False, must_match_first=self.r.random() < 0.8, minlen=2)
+        body = avoid_op8(self.block(0, False, must_match_first=self.r.random() < 0.8, minlen=2))
         return {'outs': self.outs, 'hooks': self.hooks, 'fcodes': self.fcodes, 'ycodes': self.ycodes, 'macros': [], 'body': body,
                 'args': list(args)}
 
@@ -1063,6 +1205,28 @@ def gen_lifecycle_program(seed):
               'h': [{'t': 'match', 'm': {'k': 're', 'r': {'k': 'any'}, 'bin': False}}, {'t': 'delete', 'var': r.choice(['s', 't'])}, {'t': 'hook', 'n': 'h'}]}]
     body = [{'t': 'loop', 'name': None, 'b': inner}, {'t': 'hook', 'n': 'h'}]
     p = _mk(outs, ['h'], [], [], body)
+    return p, spell_program(p)
+
+
+def gen_optcase_program(seed):
+    """rejoining-alternatives family (C05): inside a loop, alternatives that come back together with identical pending actions -
+    a one-byte optional spelled `case { "z" -> {} else -> {} }`, case arms with equal bodies, if/else with equal tails - the
+    shapes in which optimisation passes may merge a consuming move with a non-consuming one"""
+    r = random.Random(seed)
+    A = list(b'qzxy')
+    outs = [{'name': 'n', 'type': 'int', 'signed': None, 'width': None, 'default': 0}]
+    inc = {'t': 'set', 'var': 'n', 'e': {'k': 'bin', 'op': '+', 'l': {'k': 'var', 'name': 'n'}, 'r': {'k': 'num', 'v': 1}}}
+    lit = lambda b: {'k': 'str', 'bytes': [b]}
+    q, z, x = r.sample(A, 3)
+    plain = r.random() < 0.5          # both arms empty, one action after the case: the two ways out carry identical pending actions
+    same = [] if plain else r.choice([[], [inc], [{'t': 'hook', 'n': 'h'}]])
+    opt = {'t': 'case', 'greedy': False, 'cl': [{'ps': [lit(z)], 'prio': 0, 'b': list(same)}, {'ps': ['else'], 'prio': 0, 'b': list(same) if plain or r.random() < 0.7 else []}]}
+    head = {'t': 'case', 'greedy': False, 'cl': [{'ps': [lit(q)], 'prio': 0, 'b': []}, {'ps': [lit(59)], 'prio': 0, 'b': [{'t': 'break', 'loop': None}]}]}
+    body = [head, opt] + (r.choice([[inc], [{'t': 'hook', 'n': 'h'}]]) if plain else r.choice([[inc], [inc, {'t': 'hook', 'n': 'h'}], [{'t': 'hook', 'n': 'h'}]]))
+    if not plain and r.random() < 0.3:
+        body = [head, {'t': 'case', 'greedy': False, 'cl': [{'ps': [lit(z)], 'prio': 0, 'b': [inc]}, {'ps': [lit(x)], 'prio': 0, 'b': [inc]}, {'ps': ['else'], 'prio': 0, 'b': [inc]}]}, {'t': 'hook', 'n': 'h'}]
+    prog = [{'t': 'loop', 'name': None, 'b': body}, {'t': 'match', 'm': lit(33)}]
+    p = _mk(outs, ['h'], [], [], prog)
     return p, spell_program(p)
 
 
@@ -1365,8 +1529,12 @@ def gen_literal_program(seed):
 
     def bs(n):
         out = []
-        for _ in range(n):
+        while len(out) < n:
             k = r.random()
+            if n - len(out) >= 2 and k < 0.12:
+                # escape followed by characters that could extend it: \0 before digits (no octal), \x41 before hex digits, \\ before n
+                out += r.choice([[0, r.choice(b'01237')], [0x41, r.choice(b'0aF')], [92, r.choice(b'nx0t')], [10, 0x30]])
+                continue
             if k < 0.35:
                 out.append(r.randrange(256))
             elif k < 0.6:
@@ -1474,6 +1642,12 @@ def gen_expr_program(seed, wide=False):
             return {'k': 'bin', 'op': r.choice(['&&', '||']), 'l': cond(d - 1), 'r': cond(d - 1)}
         if d > 0 and k < 0.45:
             return {'k': 'not', 'e': cond(d - 1)}
+        if k < 0.5:
+            # logical not of an *integer* operand (true iff the operand is zero, whatever its value)
+            return {'k': 'not', 'e': r.choice([{'k': 'var', 'name': r.choice(names)}, {'k': 'len', 'name': 's'},
+                                                {'k': 'bin', 'op': '&', 'l': {'k': 'var', 'name': r.choice(names)}, 'r': {'k': 'num', 'v': r.choice([6, 1, 255])}},
+                                                {'k': 'idx', 'name': 's', 'i': {'k': 'num', 'v': 0}},
+                                                {'k': 'bin', 'op': '-', 'l': {'k': 'var', 'name': r.choice(names)}, 'r': {'k': 'num', 'v': r.choice([2, 7])}}])}
         if k < 0.53:
             return {'k': 'var', 'name': 'b'}
         if k < 0.75:
